@@ -37,11 +37,14 @@ def insertSorted (x : String) : List String → List String
 
 def sortStrs (l : List String) : List String := l.foldr insertSorted []
 
+/-- `ALL` stands for the nine standard methods -/
+def expandAll (l : List String) : List String :=
+  if l.contains "ALL" then l.filter (· ≠ "ALL") ++ stdMethods else l
+
 /-- `createMethodMatcher`: `none` is the configuration error for an empty entry -/
 def mkMethods (l : List String) : Option (List String) :=
   if l.isEmpty then some [] else
-  let l1 := if l.contains "ALL" then l.filter (· ≠ "ALL") ++ stdMethods else l
-  let l2 := compact (sortStrs l1)
+  let l2 := compact (sortStrs (expandAll l))
   if l2.any (·.isEmpty) then none else
   let tbr := l2.filter isNeg
   let l3 := l2.filter (fun s => !tbr.contains s)
